@@ -161,7 +161,7 @@ def repeat_family(rep, rng, n_cases, n_end, with_model=True, label="repeat"):
         is_end = G.has_end_stmt(c.body)
         rep.count(f"{label}:{'end-in-body' if is_end else 'plain'}:{a['outcome']}")
         for f in c.feat:
-            if f.startswith(("base-", "nest", "count-", "hoist", "label-fixup")) or f in ("dot", "branch", "imm", "char"):
+            if f.startswith(("base-", "nest", "count-", "hoist", "label-fixup")) or f in ("dot", "dot-rhs", "branch", "imm", "char"):
                 rep.count("feature:" + f)
         if c.n >= 2 and (c.feat & {"dot", "hoist-infix", "hoist-prefix", "branch"} or any(f.startswith("impure") for f in c.feat)):
             rep.nontrivial(("repeat", digest(c.repeat_text())))
@@ -295,6 +295,8 @@ def gen_sprog(rng, want):
         for _ in range(n):
             c = r.random()
             if c < 0.35:
+                if r.random() < 0.85:
+                    out.append(("even",))
                 out.append(("dw", r.choice([0, 2, 4, 100, -2, 0o1000])))
             elif c < 0.6:
                 out.append(("byte", [r.randrange(256) for _ in range(r.choice([2, 2, 4, 1]))]))
@@ -435,6 +437,7 @@ def _join(stmts):
 def rich_family(rep, rng, n_progs):
     prof_multi = proggen.Profile(n_files=(2, 3), n_stmts=(3, 12), link="maybe")
     prof_one = proggen.Profile(n_files=(1, 2), n_stmts=(4, 14), link="maybe")
+    prof_cut = proggen.Profile(n_files=(1, 3), n_stmts=(4, 14), link="maybe", forward_refs=False, externs=False)
     pairs, meta = [], []
 
     def add(kind, fa, fb, fs):
@@ -464,7 +467,9 @@ def rich_family(rep, rng, n_progs):
             newfiles.append((fn, "\n".join(lines) + "\n"))
         if changed:
             add("insert", p.files, newfiles, fs)
-        # .end in a linked file: cut the rest of that file
+        # .end in a linked file: cut the rest of that file (no forward references, so the cut text still assembles)
+        p = proggen.gen_program(rng, prof_cut)
+        fs = dict(p.fs)
         fi = rng.randrange(len(p.files))
         stmts = p.stmts[fi]
         pos = rng.randrange(len(stmts) + 1)
